@@ -506,8 +506,8 @@ func genGoAst(pkgs []*packages.Package) string {
 	o.add("From Coq Require Import List String ZArith.")
 	o.add("From SP Require Import GoLang.")
 	o.add("Import ListNotations.")
-	o.add("Open Scope string_scope.")
-	o.add("Open Scope Z_scope.")
+	o.add("Local Open Scope string_scope.")
+	o.add("Local Open Scope Z_scope.")
 	o.add("")
 	want := map[string]bool{}
 	for _, w := range astWhitelist {
